@@ -122,7 +122,7 @@ def runModel (ts : List String) : String :=
     | none => "bad-case"
   | "red" :: rest =>
     match parseHistory rest with
-    | some h => " ".intercalate (Spec.repoRun h TTLStore.empty)
+    | some h => " ".intercalate (Spec.redisRun h TTLStore.empty)
     | none => "bad-case"
   | "sched" :: rest =>
     match splitTok "/" rest with
